@@ -294,7 +294,7 @@ def part_a(tier, seed):
             o = dep_obj(role, brty)
             entry = "dep.%s.decode_frame" % role
             fn = lambda d, o=o: o.decode_frame(bytearray(d))
-            for d in ([b""] + [bytes([a]) for a in range(256)] if brty == "212F" else []):
+            for d in [b""] + [bytes([a]) for a in range(256)]:      # every frame of at most one octet, both framings
                 feed(entry, fn, d)
             if not quick or brty == "212F":
                 for a in (0xF0, 0x00, 2, 3, 4) if brty == "106A" else range(0, 8):
@@ -325,6 +325,9 @@ def part_a(tier, seed):
                     for tail in (b"", b"\x00", b"\x01", b"\x00\x00", b"\x05\x01xyz"):
                         scripts.append([fr(code + bytes([pfb]) + tail)])
                 valid = valid_dep_frames(role, brty)
+                for v in valid:                                      # every valid answer cut to its first 1..4 octets
+                    for k in range(1, 5):
+                        scripts.append([v[:k]])
                 for d in mutations(valid, rnd, n_rand // 6):
                     scripts.append([d])
                 for _ in range(n_rand // 6):         # two answers: (ACK | RTOX | ATN | INF) then anything
